@@ -74,7 +74,11 @@ public:
     void Run(u64 cycles) {
         idle = false;
         for (u64 i = 0; i < cycles; ++i) {
-            if (idle) {
+            // Only fast-forward while nothing is waiting to be latched: an interrupt signalled by the
+            // Tick of the previous cycle must be seen at this instruction boundary, as it would be
+            // when single-stepping.
+            if (idle && !interrupt_pending[0] && !interrupt_pending[1] && !interrupt_pending[2] &&
+                !vinterrupt_pending) {
                 u64 skipped = core_timing.Skip(cycles - i - 1);
                 i += skipped;
 
